@@ -778,7 +778,7 @@ REGISTRY["replay:c15_case"] = _replay_c15
 
 
 # ------------------------------------------------------------------------------------------------ C18
-MODEL_FREE_18 = ["cache_file_lacks_results_of_the_execution_that_wrote_it", "caching_run_raised", "cache_file_unreadable", "restart_from_cache_raised", "restart_recomputed_cached_nodes",
+MODEL_FREE_18 = ["setup_result_taken_from_the_cache_file_was_not_kept_by_the_instance", "cache_file_lacks_results_of_the_execution_that_wrote_it", "caching_run_raised", "cache_file_unreadable", "restart_from_cache_raised", "restart_recomputed_cached_nodes",
                  "restart_from_recached_file_raised", "recached_file_unreadable", "restart_without_cache_file_returned_normally", "setup_raised"]
 
 
@@ -1000,6 +1000,20 @@ def _c18_case(col, rng, cidx, tmpdir, jobref=None):
         exp = ref[1].result
         if not same(exp, r2[1]):
             col.violation(pid, "restart_value_differs_from_uncached_run", dict(expected=short(exp, 300), got=short(r2[1], 300), caching=S.jsonable(kw1), restart=S.jsonable(kw2), source=S.render(sp)), rp2)
+    if setup18 and r2[0] == "ok" and recache is None and rng.random() < 0.5:
+        # a plain call on the instance the restart ran on: the setup nodes it has a value for by now (its own, or one found in the
+        # cache file it was started from - both flavours record those) are not entered again
+        known_setup = dict(inst_setup.get(id(dd), {}))
+        B.reset_log()
+        rc = probes.run_op("call_after_restart", lambda: op_call(dd, args))
+        entc, _vc = observed(B.snapshot())
+        rec(dd, B.snapshot())
+        col.evaluations += 1
+        col.counters["c18_plain_calls_after_a_restart"] += 1
+        again = sorted(ids[i] for i in known_setup if ids[i] in entc)
+        if rc[0] == "ok" and again:
+            col.violation(pid, "setup_result_taken_from_the_cache_file_was_not_kept_by_the_instance", dict(
+                entered_again=again, is_async=sp["is_async"], restart=S.jsonable(kw2), source=S.render(sp)), rp2)
     if recache is not None and r2[0] == "ok":
         kw3 = {k: v for k, v in kw2.items() if k not in ("cache_in", "from_cache")}
         kw3["from_cache"] = recache
